@@ -514,7 +514,8 @@ class Dict(dict, base.Symbolic, pg_typing.CustomTyping):
       if deep or isinstance(v, base.Symbolic):
         v = base.clone(v, deep, memo)
       source[k] = v
-    return Dict(
+    # NOTE: a subclass of `pg.Dict` is cloned as that subclass.
+    return self.__class__(
         source,
         value_spec=self._value_spec,
         allow_partial=self._allow_partial,
